@@ -37,7 +37,8 @@ CONSTANTS Users, Roles, Chans, Docs, Classes,   \* finite sets of strings
           FnNames, FnTab,                       \* FnTab[f] = the table of function f
           AdminSet,                             \* admin configurations [ch: [Princ -> SUBSET Chans], ro: [Users -> SUBSET Roles]]
           MaxWrites, MaxSetFn, MaxRuns,         \* bounds of the exhaustive model: writes, function changes, resync runs
-          Dev                                   \* [skipTomb, keepRoles, regenNoInval, loserLazy : BOOLEAN]
+          Dev,                                  \* [skipTomb, keepRoles, regenNoInval, loserLazy : BOOLEAN]
+          Observe                               \* BOOLEAN: requests / the from-scratch database record what they return (obs, seen, scr)
 
 Princ    == Users \cup Roles
 Public   == "!"
@@ -82,7 +83,10 @@ ghost == <<fn, adm, leaves, hcls, dem, wr, nw, synced, runs, qruns, last, seen, 
 vars  == <<impl, ghost, hist>>
 (* every growing variable is bounded by a guard on nw, so the reachable graph is finite without a step bound; the absolute
    values of sequences / versions / counter are left out of the view (what a run consumed is kept in rs.touched, rs.used),
-   and so are the observations: a request matters to the future only through the principal documents it recomputes *)
+   and so are the observations: a request matters to the future only through the principal documents it recomputes.
+   In the exhaustive model Observe = FALSE: obs / seen / scr stay empty (values that are outside the view are never
+   normalised by TLC's fingerprinting, and lazily built sets in them broke its disk queue), and the two statements about
+   observations are checked in the form PrincipalsFreshAll / FromScratchAll over what a request WOULD return. *)
 view  == <<win, [d \in Docs |-> [ch |-> st[d].ch, acc |-> st[d].acc, rol |-> st[d].rol]], cache, rs,
            fn, adm, leaves, hcls, dem, wr, nw, synced, runs, qruns, last, st0>>     \* obs, seen, scr: see PrincipalsFreshAll, FromScratchAll
 
@@ -135,7 +139,9 @@ NewBWrite(d, b, cls, del) == [leaves[d] EXCEPT ![b] = [st |-> IF del THEN "dead"
 NewBConflict(d, cls, hi)  == [leaves[d] EXCEPT ![2] = [st |-> "live", cls |-> cls, gen |-> leaves[d][1].gen, tb |-> IF hi THEN 2 ELSE 0]]
 
 (* The from-scratch database: documents all of whose writes the function accepts *)
-Comp           == {d \in Docs : Exists(d) /\ \A c \in hcls[d] : Accepted(fn, c)}
+(* written as a UNION so that TLC holds an enumerated set: a lazily filtered set stored in a state variable made TLC's
+   disk queue fail ("ValueVec.size() ... elems is null") *)
+Comp           == UNION {IF Exists(d) /\ (\A c \in hcls[d] : Accepted(fn, c)) THEN {d} ELSE {} : d \in Docs}
 NonCompGrants  == \E d \in Docs : Exists(d) /\ d \notin Comp /\ (Out(fn, WCls(d)).acc # {} \/ Out(fn, WCls(d)).rol # {})
 IdealVis(u)    == {d \in Comp : Out(fn, WCls(d)).ch \cap Eff(u) # {}}
 IdealRev(u)    == {x \in Comp \X Branches : HasLeaf(x[1], x[2]) /\ x[2] \notin dem[x[1]]
@@ -274,16 +280,17 @@ ReqChans(c2, u) == c2[u].cch \cup UNION {c2[r].cch : r \in c2[u].cro}
 ImplRequest(u) ==
   LET c2 == ReqCache(u) IN
   /\ cache' = c2
-  /\ obs' = [on |-> TRUE, u |-> u, chans |-> ReqChans(c2, u), roles |-> c2[u].cro,
-             vis |-> VisDocs(ReqChans(c2, u)), vrev |-> VisRevs(ReqChans(c2, u))]
+  /\ obs' = IF Observe THEN [on |-> TRUE, u |-> u, chans |-> ReqChans(c2, u), roles |-> c2[u].cro,
+                              vis |-> VisDocs(ReqChans(c2, u)), vrev |-> VisRevs(ReqChans(c2, u))]
+                        ELSE NoObs
   /\ UNCHANGED <<win, st, ctr, rs, scr>>
 GhostRequest(u) ==
-  /\ seen' = [seen EXCEPT ![u] = obs']
+  /\ seen' = IF Observe THEN [seen EXCEPT ![u] = obs'] ELSE seen
   /\ UNCHANGED <<fn, adm, leaves, hcls, dem, wr, nw, synced, runs, qruns, last, st0>>
-Request(u) == ~rs.on /\ (ReqCache(u) # cache \/ ~seen[u].on) /\ ImplRequest(u) /\ GhostRequest(u) /\ Step([a |-> "Request", u |-> u])
+Request(u) == ~rs.on /\ (IF ReqCache(u) # cache THEN TRUE ELSE Observe /\ ~seen[u].on) /\ ImplRequest(u) /\ GhostRequest(u) /\ Step([a |-> "Request", u |-> u])
 
 Scratch ==
-  /\ ~rs.on /\ ~scr.on
+  /\ Observe /\ ~rs.on /\ ~scr.on
   /\ scr' = IdealScr /\ UNCHANGED <<win, st, ctr, cache, rs, obs, ghost>>
   /\ Step([a |-> "Scratch"])
 
